@@ -17,6 +17,7 @@ class BinnifyEach(Contract):
     possibly shorter last bin ending at the chromosome length."""
     target = f"{UT}:binnify._each"
     props = ["C20"]
+    inline = True     # its clauses read the free variables of its own configuration: binnify (own contract) executes the body
 
     def configs(self, v):
         def f(v):
